@@ -1067,7 +1067,21 @@ func decide(c *vf.Case, s *scenario, res *result) {
 		for _, r := range rels {
 			b := float64(r.raw)
 			if lim := burstMax(r.t, r.t); b > lim {
+				// charged what the bucket can hold at most under the SMALLER reading of the
+				// documented bucket size: the allowance above is rounded up (permissive for the
+				// envelope), and charging that rounded-up value to every oversize packet would
+				// demand more than rate x interval tokens per interval (one bit too many per
+				// packet when rate x interval is not whole: false alarm in the thorough tier)
 				b = lim
+				for k := range segs {
+					hi := int64(math.MaxInt64)
+					if k+1 < len(segs) {
+						hi = segs[k+1].at
+					}
+					if segs[k].at <= r.t && hi >= r.t {
+						b = math.Min(b, configuredBurst(segs[k].rate, s.interval))
+					}
+				}
 				oversizeReleased++
 			}
 			if n := len(insts); n > 0 && insts[n-1].t == r.t {
